@@ -22,13 +22,16 @@ import (
 // ---- C15: literals and value representations round-trip losslessly.
 
 // source symbols of string literals: text in the source and the decoded text
-type litSym struct{ src, dec, class string }
+// alt, when set, is a second acceptable decoding (a backslash before a character that is
+// not an escape: the character has to stay intact, the backslash may be dropped or kept)
+type litSym struct{ src, dec, class, alt string }
 
 var c15Syms = []litSym{
-	{"a", "a", "plain"}, {"n", "n", "plain"}, {"u", "u", "plain"}, {"é", "é", "nonascii"}, {" ", " ", "plain"}, {`"`, `"`, "plain"}, {"`", "`", "plain"}, {"/", "/", "plain"},
-	{`\'`, "'", "esc"}, {`\"`, `"`, "esc"}, {"\\`", "`", "esc"}, {`\\`, `\`, "esc.backslash"}, {`\/`, "/", "esc.slash"},
-	{`\f`, "\f", "esc"}, {`\n`, "\n", "esc"}, {`\r`, "\r", "esc"}, {`\t`, "\t", "esc"},
-	{"\\" + "u00e9", "\u00e9", "esc.unicode"}, {"\\" + "u20ac", "\u20ac", "esc.unicode"}, {"\\" + "u0041", "A", "esc.unicode"},
+	{src: "a", dec: "a", class: "plain"}, {src: "n", dec: "n", class: "plain"}, {src: "u", dec: "u", class: "plain"}, {src: "é", dec: "é", class: "nonascii"}, {src: " ", dec: " ", class: "plain"}, {src: `"`, dec: `"`, class: "plain"}, {src: "`", dec: "`", class: "plain"}, {src: "/", dec: "/", class: "plain"},
+	{src: `\'`, dec: "'", class: "esc"}, {src: `\"`, dec: `"`, class: "esc"}, {src: "\\`", dec: "`", class: "esc"}, {src: `\\`, dec: `\`, class: "esc.backslash"}, {src: `\/`, dec: "/", class: "esc.slash"},
+	{src: `\f`, dec: "\f", class: "esc"}, {src: `\n`, dec: "\n", class: "esc"}, {src: `\r`, dec: "\r", class: "esc"}, {src: `\t`, dec: "\t", class: "esc"},
+	{src: "\\" + "u00e9", dec: "\u00e9", class: "esc.unicode"}, {src: "\\" + "u20ac", dec: "\u20ac", class: "esc.unicode"}, {src: "\\" + "u0041", dec: "A", class: "esc.unicode"},
+	{src: `\é`, dec: "é", class: "esc.unknown", alt: `\é`}, {src: `\q`, dec: "q", class: "esc.unknown", alt: `\q`},
 }
 
 func c15TemporalTexts() []struct{ kind, text, class string } {
@@ -222,7 +225,7 @@ func fhirConvOne[To constraints.Integer](r *core.Rec, kind string, v int64) {
 func init() {
 	core.Register(&core.Check{
 		ID:   "C15",
-		Rule: "six finite sub-spaces enumerated completely: string literals as all sequences of length 0..3/4 over 20 source symbols (every escape, quotes, backslash, non-ASCII) against an own escape decoder; temporal literal texts (precision x fraction digits x offset form x boundary fields, valid and calendar-invalid); number/quantity literals; System<->FHIR primitive conversions for every precision enum x time-zone form; FHIR primitive parse/format helpers against google/fhir jsonformat; integer narrowing for all 11x11 Go integer type pairs (every 8/16-bit value, boundary 32/64-bit values); distinct by construction",
+		Rule: "six finite sub-spaces enumerated completely: string literals as all sequences of length 0..3/4 over 22 source symbols (every escape, quotes, backslash, non-ASCII, a backslash before a non-escape ASCII and non-ASCII character) against an own escape decoder; temporal literal texts (precision x fraction digits x offset form x boundary fields, valid and calendar-invalid); number/quantity literals; System<->FHIR primitive conversions for every precision enum x time-zone form; FHIR primitive parse/format helpers against google/fhir jsonformat; integer narrowing for all 11x11 Go integer type pairs (every 8/16-bit value, boundary 32/64-bit values); distinct by construction",
 		Assumptions: []string{"a fraction finer than milliseconds may be cut explicitly (shown by toString) but not changed", "google/fhir jsonformat is the reference FHIR JSON rendering"},
 		Subs: func(tier string) []core.Sub {
 			maxLen := 4
@@ -247,13 +250,13 @@ func init() {
 			temporals := c15TemporalTexts()
 			elems := lib.ElementPool()
 			return []core.Sub{
-				{Name: "string-literals", N: len(seqs), Note: fmt.Sprintf("prefix of <=2 symbols x all continuations up to length %d over 20 symbols", maxLen), Run: func(i int, r *core.Rec) {
+				{Name: "string-literals", N: len(seqs), Note: fmt.Sprintf("prefix of <=2 symbols x all continuations up to length %d over 22 symbols", maxLen), Run: func(i int, r *core.Rec) {
 					prefix := seqs[i]
 					// which symbols are decoded wrongly on their own (used to key multi-symbol failures by their cause)
 					symFails := make([]bool, len(c15Syms))
 					for k, sy := range c15Syms {
 						one := lib.Run("'"+sy.src+"'", nil, nil)
-						symFails[k] = !(one.OK() && len(one.Coll) == 1 && one.Coll[0] == system.String(sy.dec))
+						symFails[k] = !(one.OK() && len(one.Coll) == 1 && (one.Coll[0] == system.String(sy.dec) || sy.alt != "" && one.Coll[0] == system.String(sy.alt)))
 					}
 					var tails [][]int
 					tails = append(tails, nil)
@@ -272,12 +275,17 @@ func init() {
 					}
 					for _, tl := range tails {
 						full := append(append([]int{}, prefix...), tl...)
-						var src, dec strings.Builder
+						var src, dec, decAlt strings.Builder
 						classes := map[string]bool{}
 						anyAlone := false
 						for _, k := range full {
 							src.WriteString(c15Syms[k].src)
 							dec.WriteString(c15Syms[k].dec)
+							if c15Syms[k].alt != "" {
+								decAlt.WriteString(c15Syms[k].alt)
+							} else {
+								decAlt.WriteString(c15Syms[k].dec)
+							}
 							if symFails[k] {
 								anyAlone = true
 							}
@@ -291,14 +299,14 @@ func init() {
 						lit := "'" + src.String() + "'"
 						res := lib.Run(lit, nil, nil)
 						r.Eval()
-						ok := res.OK() && len(res.Coll) == 1 && res.Coll[0] == system.String(dec.String())
+						ok := res.OK() && len(res.Coll) == 1 && (res.Coll[0] == system.String(dec.String()) || res.Coll[0] == system.String(decAlt.String()))
 						if r.WantSample() {
 							r.Sample(core.W{"literal": lit, "got": res.String()})
 						}
 						if !ok {
 							// key: which symbol classes occur (sorted), so distinct escape defects get distinct keys
 							var cs []string
-							for _, c := range []string{"esc", "esc.backslash", "esc.slash", "esc.unicode", "nonascii", "plain"} {
+							for _, c := range []string{"esc", "esc.backslash", "esc.slash", "esc.unicode", "esc.unknown", "nonascii", "plain"} {
 								if classes[c] {
 									cs = append(cs, c)
 								}
